@@ -140,6 +140,10 @@ def profile(kind, n, rng):
         return q(rng.normal(-50, 30, n))
     if kind == "narrow":
         return q(rng.normal(-5, 0.7, n))
+    if kind == "deep":  # many epochs / an unfavourable velocity unit: every ln-likelihood far below the exp() range of a double
+        return q(rng.normal(-5000, 2, n))
+    if kind == "high":  # ... or far above it
+        return q(rng.normal(2000, 2, n))
     raise ValueError(kind)
 
 
